@@ -220,9 +220,38 @@ def handleQueue (j : Json) : Except String Json := do
     ("detail", Json.mkObj [("build", kBuild), ("can", kCan), ("deq", kDeq), ("programOrder", po),
                             ("states", jnat states.length)])]
 
+/-! Op `"plan"`: the access plan `_build_acc_plan` builds for a program (the hazard theorems start from it).
+`{"op":"plan","prog":[instr…],"impl":[[reg,[[isWrite,[owner…]]…]]…]}` (queues front first) → K: `buildPlan` gives the
+same queue for every register; O: every queue represents exactly the program-order request list of its register. -/
+
+/-- program-order requests of register `r`: per instruction its read (if a source), then its write (if the destination) -/
+def reqsOfReg (prog : List (Instr S)) (r : S) : List Spec.Req :=
+  (prog.zipIdx).flatMap (fun (ins, i) =>
+    (if r ∈ ins.srcs then [(false, i)] else []) ++ (if ins.dst = r then [(true, i)] else []))
+
+def handlePlan (j : Json) : Except String Json := do
+  let prog ← (← getArr j "prog").mapM parseInstr
+  let impl ← (← getArr j "impl").mapM (fun e => do
+    match ← asArr e with
+    | [r, q] => return (← r.getStr?, ← parseQueue q)
+    | _ => throw "bad plan entry")
+  let plan := buildPlan prog
+  let regs := dedup (prog.flatMap (fun i => i.srcs ++ [i.dst]))
+  let k := regs.all (fun r => (impl.lookup r).map canonQ == some (canonQ (Queues.get plan r))) &&
+           impl.all (fun e => decide (e.1 ∈ regs))
+  let o := firstBad [
+    ("every register of the program has a queue", regs.all (fun r => (impl.lookup r).isSome)),
+    ("every queue is well-formed", impl.all (fun e => Spec.wfq e.2)),
+    ("every queue represents exactly the program-order requests of its register",
+      impl.all (fun e => Spec.abs e.2 == reqsOfReg prog e.1)),
+    ("the request list of every register is in program order", regs.all (fun r => Spec.programOrder (reqsOfReg prog r)))]
+  return Json.mkObj [("k", Json.mkObj [("C19", k)]),
+    ("o", Json.mkObj [("C19", match o with | none => Json.null | some s => Json.str s)])]
+
 def handle : Driver.Handler := fun op j =>
   match op with
   | "sim" => some (handleSim j)
+  | "plan" => some (handlePlan j)
   | "queue" => some (handleQueue j)
   | _ => none
 
